@@ -318,12 +318,13 @@ class SyncManager(Runnable):
 
     def moved_out_of_root(self, sync: SyncEntry, side) -> bool:
         """
-        Boolean true if this side of a synced entry is now somewhere outside of the sync root
+        Boolean true if this side of a synced entry is now somewhere that is not synced: outside of the sync root,
+        or at a path that translate() declines (for example a subfolder owned by a nested sync)
         """
         ss = sync[side]
         if not (ss.oid and ss.path and ss.sync_path and ss.exists == EXISTS):
             return False
-        return not self.translate(OTHER_SIDE[side], ss.path) and not self.providers[side].is_subpath_of_root(ss.path)
+        return not self.translate(OTHER_SIDE[side], ss.path)
 
     def check_revivify(self, sync: SyncEntry):
         """
